@@ -325,6 +325,9 @@ class HTTP(BaseComponent):
         modified by a :class:`~circuits.web.errors.HTTPError` instance
         or a subclass thereof.
         """
+        # the error page replaces whatever the application had prepared,
+        # also a streamed body (e.g. serve_file()) and its Content-Length
+        res.stream = False
         res.body = str(event)
         self.fire(response(res))
 
